@@ -287,6 +287,10 @@ def run(tier, replay=None):
     from . import validators, subtag_api
     validators.run_all(prog, rep, roles_wanted={'Language', 'Script', 'Region', 'Variant'})
     subtag_api.language_empty(prog, rep, validators.load_roles())
+    # "has private-use subtags" for a parsed Locale: the dispatcher hands everything after -x- to the private parser, which stores every remaining subtag
+    from . import parserules
+    for which in ('dispatch', 'private'):
+        parserules.check(prog, rep, which)
     rep.count('decision paths analysed', total_paths)
     rep.floor('decision paths', total_paths, 200)
     rep.explanation = ('Finite truth tables decided symbolically: each matches body is explored path by path (callees inlined, every branch on a flag, on the '
